@@ -144,7 +144,7 @@ class Family:
         return True
 
 
-W0 = {lay: G.make_world(lay) for lay in G.LAYOUT_NAMES}
+W0 = {lay: G.make_world(lay, variants=False) for lay in G.LAYOUT_NAMES}      # (the families below vary these lists themselves)
 # Chaos stores node/leaf bounds as floats.  Keep the base world integral so that a problem with fractional bounds is
 # reported by the leaf/node families (where 1.5 and 2^-10 are boundary values) and not by everything that refers to a leaf.
 for _rec in W0['chaos']['visleafs'] + W0['chaos']['nodes']:
